@@ -135,6 +135,11 @@ func (g *Gen) genForeign() *FImg {
 				pt = 1
 			}
 			ac := pick(r, archCodes)
+			if pt != 2 && r.Chance(1, 5) {
+				// data and overlay partitions written without an architecture, or by a newer writer
+				ac = pick(r, []string{"00", "13", "99"})
+				g.count("foreign:partition-with-unnamed-arch-code")
+			}
 			ex := make([]byte, 11)
 			ex[0] = byte(1 + r.Intn(5))
 			ex[4] = byte(pt)
